@@ -174,9 +174,18 @@ def run(case):
         if "tau" in p:
             p["tau"] = abs(p["tau"]) + 0.2
         pts.append(p)
+    # parameter points are handed over in ONE list / array object that is updated in place between the calls (a scan loop) for every second case
+    how = ("fresh", "same_list", "fresh", "same_array")[len(case["points"][0]) and int(abs(case["points"][0][0]) * 1e6) % 4]
+    pbuf = [0.0] * len(names) if how == "same_list" else (np.zeros(len(names)) if how == "same_array" else None)
+    if pbuf is not None:
+        labels.add("parameter_buffer_reused_in_place")
     for k_, p in enumerate(pts):
         with guard("set_parameter_values"):
-            fit.set_all_parameter_values([p[nm] for nm in names])
+            if pbuf is not None:
+                pbuf[:] = [p[nm] for nm in names]
+                fit.set_all_parameter_values(pbuf)
+            else:
+                fit.set_all_parameter_values([p[nm] for nm in names])
         judge_cost(fit, ref, p, f"point {k_} (before any fit)", implicit_no_errors=implicit)
         with guard("model"):
             m = fit.y_model if spec["type"] == "xy" else fit.model
